@@ -56,7 +56,7 @@ OBLIGATIONS += _sel(_c11, ('C11.O2.lfs_pop_env', 'C11.O2.lfs_push_env', 'C11.O1.
 OBLIGATIONS += _sel(_c12, ('C12.O1.enqueue', 'C12.O1.dequeue', 'C12.O2.dequeue_env'))
 # the resize-request retry loops that add / del run through ht_count_add / ht_count_del (solo run: every CAS loop terminates)
 OBLIGATIONS += _sel(_c09, ('C09.O6.lazy_count', 'C09.O6.lazy_grow', 'C09.O6.count_adddel'))
-OBLIGATIONS += _sel(_c10, ('C10.O1.dequeue', 'C10.O1.iter', 'C10.O1.splice', 'C10.O1.enqueue'))
+OBLIGATIONS += _sel(_c10, ('C10.O1.dequeue', 'C10.O1.iter', 'C10.O1.splice', 'C10.O1.enqueue', 'C10.O1.busy_wait'))
 META = {
     'level': 'other',
     'explanation': 'C17 quantifies over suspension points of other threads. Decided by contracts: (O1) each operation documented wait-free, compiled with the REAL primitives, executes every loop of its call closure at most once from an ARBITRARY memory state (unwinding assertions at bound 1, no recursion) - a constant bound on its own steps; (O3) the non-blocking variants can reach neither poll() nor caa_cpu_relax() nor a second loop iteration from an arbitrary memory state; (O0) positive controls: the blocking variants DO trip the same check; (O4) from the intermediate states a suspended enqueuer / pusher leaves behind, the non-blocking variants return the right element or WOULDBLOCK (exactly when the needed link is in flight, structure unchanged, never when nothing is in flight), wait-free operations complete, and the lock-free queue helps the lagging tail forward and completes; (O2/O5, shared with C06-C08, C10-C12) hash-table traversals and mutators terminate on unbounded chains containing logically deleted nodes (decreases clauses; unlinking = helping), lfstack push/pop retry only when another operation succeeded (interference tokens). Hash-table operations in the middle of a resize and the full schedule quantifier are not decided.',
